@@ -272,4 +272,7 @@ def run(ctx) -> Report:
         f"({counts['accepted']} accepted, {counts['rejected']} rejected); FormData.__init__ must run the check on every path."
     )
     rep.assumptions = ["compound tensor operators (inner/dot/outer) never reach the arity check as run by compute_form_data (they are lowered first): their handlers are not part of the claim", "soundness direction only (accepted => multilinear); rejecting a multilinear integrand is not a violation of the property", "finite integrand family; argument parts not exercised"]
+    from ..memokey import memo_rule
+
+    memo_rule(ctx, rep, "C14-key", ['ufl.algorithms.check_arities'])
     return rep
